@@ -24,7 +24,7 @@ var e1Owners = map[string][]string{
 	"C07": {"wire", "concurrent-io", "wire-trailing"},
 	"C10": {"handler-error", "spurious-error", "error-probe", "error-order"},
 	"C11": {"metadata", "metadata-wire"},
-	"C12": {"close-hang", "close-count", "close-leak", "close-later-op", "close-ctx", "serve-order", "panic"},
+	"C12": {"close-hang", "close-count", "close-leak", "close-later-op", "close-ctx", "serve-order", "panic", "fault-hang"},
 	"C13": {"panic", "byz-memory", "byz-hang"},
 	"C18": {"oldreader", "delivery", "completeness", "crosstalk", "probe", "handler-error", "spurious-error"},
 }
@@ -541,13 +541,27 @@ func (x *e1) ioFired() bool {
 }
 
 func (x *e1) transportClosedByHarness() bool {
-	for _, ft := range x.prog.FaultTask {
-		if strings.HasPrefix(ft.Kind, "close-") || ft.Kind == "cancel-serve" {
-			for _, ev := range x.d.History {
-				if ev.Kind == "fault" && ev.Data == ft.Kind {
-					return true
-				}
+	for _, k := range []string{"conn-close", "tr-close", "serve-cancel"} {
+		if _, ok := x.did[k]; ok {
+			return true
+		}
+	}
+	return false
+}
+
+// faultBefore reports whether an I/O fault fired or a harness close/cancel
+// happened strictly before step.
+func (x *e1) faultBefore(step int) bool {
+	for _, e := range []*Endpoint{x.cep, x.sep} {
+		for _, f := range e.Faults {
+			if f.Fired && f.FiredAt < step {
+				return true
 			}
+		}
+	}
+	for _, k := range []string{"conn-close", "tr-close", "serve-cancel"} {
+		if s, ok := x.did[k]; ok && s < step {
+			return true
 		}
 	}
 	return false
@@ -826,4 +840,62 @@ func sizeClass(n int) string {
 		return ">1MiB"
 	}
 	return ">256KiB"
+}
+
+// checkFaultContainment (C05 b, C12): after a transport fault or a close, both
+// endpoints must report the connection closed, and stream contexts must be done.
+func (x *e1) checkFaultContainment() {
+	fault := x.ioFired()
+	closed := x.closeStep > 0 || x.transportClosedByHarness()
+	if !fault && !closed {
+		return
+	}
+	if x.conn == nil {
+		return
+	}
+	_, lateServe := x.did["serve-cancel"]
+	_, trClose := x.did["tr-close"]
+	if fault || x.closeStep > 0 || trClose || !lateServe {
+		if !connClosed(x.conn) {
+			o := "fault-closed"
+			if !fault {
+				o = "close-hang"
+			}
+			x.viol(o, "client connection does not report closed after the transport failed or was closed", strings.Join(x.libCensus(), " "))
+		}
+	}
+	if !x.prog.Cfg.Serve && !x.serveDone {
+		o := "fault-closed"
+		if !fault {
+			o = "close-hang"
+		}
+		x.viol(o, "ServeOne has not returned after the transport failed or was closed", strings.Join(x.libCensus(), " "))
+	}
+	if x.closeCalls > x.closeDone {
+		x.viol("close-hang", "Conn.Close did not return", strings.Join(x.libCensus(), " "))
+	}
+	// contexts of streams that existed must be done once the connection is gone
+	for _, r := range x.recs {
+		if r.C.st != nil && connClosed(x.conn) {
+			select {
+			case <-r.C.st.Context().Done():
+			default:
+				x.viol("close-ctx", "client stream context not done although the connection is closed", fmt.Sprintf("rpc%d", r.Spec.Idx))
+			}
+		}
+		if r.H.st != nil && x.serveDone {
+			select {
+			case <-r.H.st.Context().Done():
+			default:
+				x.viol("close-ctx", "handler stream context not done although the server side is closed", fmt.Sprintf("rpc%d", r.Spec.Idx))
+			}
+		}
+	}
+	if x.probeRec.InvokeDone && x.probeRec.InvokeErr == nil && x.probeStart > 0 && x.faultBefore(x.probeStart) {
+		o := "fault-newstream"
+		if !fault {
+			o = "close-later-op"
+		}
+		x.viol(o, "an rpc issued after the connection failed or was closed succeeded", "")
+	}
 }
